@@ -316,6 +316,16 @@ def check_semilinear(run_, tab, tables, ex, jnp, jax, rng, tier):
                     continue
                 h = 1e-3 * abs(x0) if x0 != 0 else 1e-4
                 fdp = fd6(f_p, x0, h)
+                if x0 == 0:
+                    # no natural scale for the step at a vanishing coefficient (a normalized third-order coefficient moves lambda dt by (2 pi k)^3 h):
+                    # shrink the step until two successive difference quotients agree - the oracle has to be converged before it judges
+                    for _ in range(7):
+                        h /= 4
+                        nxt = fd6(f_p, x0, h)
+                        done = maxabs(nxt - fdp) <= 2e-8 * (1 + maxabs(nxt))
+                        fdp = nxt
+                        if done:
+                            break
                 sc = 1 + maxabs(fdp)
                 run_.evaluations += 1
                 if not np.all(np.isfinite(got)) or maxabs(got - fdp) > 5e-7 * sc:
